@@ -118,9 +118,22 @@ func main() {
 	if b, err := os.ReadFile(os.Getenv("CVSSSIM_SITES")); err == nil {
 		var sf struct {
 			GoStmts int `json:"go_statements"`
+			Sites   []struct {
+				ID  uint32 `json:"id"`
+				Hot bool   `json:"hot"`
+			} `json:"sites"`
 		}
-		if json.Unmarshal(b, &sf) == nil && sf.GoStmts > 0 {
-			simrt.SetCheckGoroutine(true)
+		if json.Unmarshal(b, &sf) == nil {
+			if sf.GoStmts > 0 {
+				simrt.SetCheckGoroutine(true)
+			}
+			var hot []uint32
+			for _, s := range sf.Sites {
+				if s.Hot {
+					hot = append(hot, s.ID)
+				}
+			}
+			simrt.SetHotSites(hot)
 		}
 	}
 
